@@ -17,7 +17,7 @@ INJECT = [
     ("src/parser.rs", "incrate/parser.rs", "verif_kani_parser", ""),
     ("src/parser.rs", "incrate/parser_walk.rs", "verif_kani_parser_walk", ""),
     ("src/parser.rs", "incrate/parser_str.rs", "verif_kani_parser_str", ""),
-    ("src/reader.rs", "incrate/reader.rs", "verif_kani_reader", ""),
+    ("src/reader.rs", "incrate/reader.rs", "verif_kani_reader", "pub(crate)"),
     ("src/util/string.rs", "incrate/string.rs", "verif_kani_string", ""),
     ("src/util/unicode.rs", "incrate/unicode.rs", "verif_kani_unicode", ""),
     ("src/value/node.rs", "incrate/node.rs", "verif_kani_node", ""),
@@ -265,23 +265,36 @@ _LOOP_RE = re.compile(r"^Loop (\S+):\s*$")
 
 
 def resolve_unwindset(goto_binary, spec):
-    """spec: list of (function substring, ordinal or None, bound). Loop identifiers are resolved on every
-    run from `cbmc --show-loops` (they carry mangled names and are not stable across edits)."""
+    """spec: list of (function substring, ordinal or None, bound). The ordinal counts the loops of that
+    function in *source-line order* (0 = first loop in the text); CBMC's own numbering is not source order.
+    Loop identifiers are resolved on every run from `cbmc --show-loops` (they carry mangled names)."""
     out = subprocess.run(["cbmc", "--show-loops", goto_binary], capture_output=True, text=True).stdout.splitlines()
     loops = []
     for i, ln in enumerate(out):
         m = _LOOP_RE.match(ln)
         if m and i + 1 < len(out):
             fm = re.search(r" function (.*)$", out[i + 1])
-            loops.append((m.group(1), fm.group(1) if fm else ""))
+            lm = re.search(r" line (\d+)", out[i + 1])
+            loops.append((m.group(1), fm.group(1) if fm else "", int(lm.group(1)) if lm else 0))
     chosen = {}
     unmatched = []
     for fsub, ordinal, bound in spec:
+        cands = sorted([l for l in loops if fsub in l[1]], key=lambda l: (l[1], l[2], l[0]))
+        # ordinal within each distinct function name
+        by_fn = {}
+        for l in cands:
+            by_fn.setdefault(l[1], []).append(l)
         hit = False
-        for lid, fn in loops:
-            if fsub in fn and (ordinal is None or lid.endswith(".%d" % ordinal)):
-                chosen[lid] = max(bound, chosen.get(lid, 0))
-                hit = True
+        for fn, ls in by_fn.items():
+            for k, l in enumerate(ls):
+                # negative ordinals count from the last loop of the function in source order
+                if ordinal is None or ordinal == k or (ordinal < 0 and ordinal == k - len(ls)):
+                    chosen[l[0]] = max(bound, chosen.get(l[0], 0))
+                    hit = True
         if not hit:
             unmatched.append((fsub, ordinal))
+    if os.environ.get("VERIF_DEBUG_LOOPS"):
+        for l in loops:
+            if l[0] in chosen:
+                log("[loops] %s line %d -> %d  (%s)" % (l[1][-60:], l[2], chosen[l[0]], l[0][-30:]))
     return chosen, unmatched, len(loops)
